@@ -78,6 +78,15 @@ Proof.
 Qed.
 Print Assumptions c16_hlsl_case_insensitive_and_helpers.
 
+(* REFUTED (finding): the fixed-width scalar type names of HLSL (int64_t, uint64_t, float16_t, ...) are
+   not escaped: they are missing from the table and do not end in a digit. *)
+Theorem c16_hlsl_sized_types_refuted : forall k, In k hlsl_sized_types ->
+  In (Some k) (snd (run HLSL hlsl_start [Call k])).
+Proof.
+  intros k Hin. repeat (destruct Hin as [<- | Hin]; [vm_compute; left; reflexivity|]). destruct Hin.
+Qed.
+Print Assumptions c16_hlsl_sized_types_refuted.
+
 (* ---- identifier grammar [A-Za-z_][A-Za-z0-9_]* ---- *)
 Theorem c16_ident_grammar_msl : forall ops st outs n,
   run MSL plain_start ops = (st, outs) -> In (Some n) outs -> ident_ok n = true.
